@@ -48,6 +48,7 @@ const SIG_I0: &str = "C15/reread-differs/I0-only";
 const SIG_HEADER_COMMENT: &str = "C15/reread-differs/comment-after-block-scalar-content";
 const SIG_FOLDED_LEAD: &str = "C15/reread-differs/folded-leading-blank-lines";
 const SIG_FOLDED_KEEP: &str = "C15/reread-differs/folded-keep-trailing-line-break-added";
+const SIG_NESTED_ANCHOR: &str = "C15/alias-soundness/unknown-anchor/after-write";
 
 #[derive(Clone, Debug)]
 pub struct Case {
@@ -395,6 +396,14 @@ pub enum Outcome {
     Discarded,
 }
 
+/// does the program text contain a write operator of the fragment (`=`, `|=`, `+=`, `*=`,
+/// `//=`, `del(`, `. * {`)? Identity and navigation contain none of these characters
+/// outside string literals, and the generator quotes keys with `jq_string`, so a `=` inside
+/// a key literal would count as a write too — good enough for naming a route.
+fn program_writes(p: &str) -> bool {
+    p.contains('=') || p.contains("del(") || p.contains(" * ")
+}
+
 /// Some line of `y` carries a comment containing `: ` (or ending in `:`) while the text
 /// before the comment has no `key:` of its own.
 fn keyless_line_with_colon_comment(y: &[u8]) -> bool {
@@ -536,6 +545,12 @@ fn check_once(case: &Case, indent: u8, st: &mut Stats) -> Result<Outcome, Fail> 
             // `: ` was re-emitted on a line that has no `key:` of its own
             return Ok(Outcome::DocumentedLimit);
         }
+        if err_head(&r).contains("unknown anchor") {
+            // an alias without its anchor: name the route (DOM path after a write, or the
+            // streaming path)
+            let route = if program_writes(&case.program) { "after-write" } else { "after-read" };
+            return Err(Fail::new(format!("C15/alias-soundness/unknown-anchor/{}", route), detail(json!({"reread_exit": r.code, "reread_stderr": err_head(&r)}))));
+        }
         return Err(Fail::new(format!("C15/reread-error/{}", err_shape(&err_head(&r))), detail(json!({"reread_exit": r.code, "reread_stderr": err_head(&r)}))));
     }
     let rvals = match jsonval::parse_stream(&r.stdout) {
@@ -632,6 +647,8 @@ struct Avoid {
     folded_leading_blank: bool,
     /// a folded block scalar whose value ends in two or more line breaks (keep chomping)
     folded_keep: bool,
+    /// a write program on a document with an anchor inside an anchored collection
+    nested_anchor_writes: bool,
 }
 
 fn doc_opts(simple: bool) -> YOpts {
@@ -688,6 +705,23 @@ fn own_shapes(r: &gy::RenderedYaml) -> (bool, bool, bool) {
     (header_comment, folded_lead, folded_keep)
 }
 
+/// an anchor defined strictly inside an anchored collection (`&A [&b x]`)
+fn has_nested_anchor(r: &gy::RenderedYaml) -> bool {
+    let outer: Vec<(usize, &Vec<Seg>)> = r.containers.iter().filter(|c| c.anchor.is_some()).map(|c| (c.doc, &c.path)).collect();
+    let inner = r
+        .spans
+        .iter()
+        .filter(|s| s.anchor.is_some())
+        .map(|s| (s.doc, &s.path))
+        .chain(r.containers.iter().filter(|c| c.anchor.is_some()).map(|c| (c.doc, &c.path)));
+    for (d, p) in inner {
+        if outer.iter().any(|(od, op)| *od == d && p.len() > op.len() && p.starts_with(op)) {
+            return true;
+        }
+    }
+    false
+}
+
 /// Documented gap #1350 (docs/compliance/yq/limitations.md "Known gap in this rule"): the
 /// streaming path prints an alias verbatim even when the selected sub-tree does not
 /// contain its anchor (`yq .b` on `a: &x 1` / `b: *x` prints `*x`). Does navigating to
@@ -723,12 +757,14 @@ fn gen_case(u: &mut Src, av: Avoid) -> Generated {
     let mut o = doc_opts(simple);
     let stream = gy::gen_stream(u, &o);
     let mut rendered = gy::render(&stream, u, &o);
-    for _ in 0..2 {
+    for _ in 0..3 {
         let (hc, fl, fk) = own_shapes(&rendered);
         if av.header_comment && hc {
             o.comments = false;
         } else if (av.folded_leading_blank && fl) || (av.folded_keep && fk) {
             o.block_scalars = false;
+        } else if av.nested_anchor_writes && want_write && has_nested_anchor(&rendered) {
+            o.anchors = false;
         } else {
             break;
         }
@@ -972,6 +1008,7 @@ pub fn run(cx: &mut Ctx) {
         header_comment: cx.is_known(SIG_HEADER_COMMENT),
         folded_leading_blank: cx.is_known(SIG_FOLDED_LEAD),
         folded_keep: cx.is_known(SIG_FOLDED_KEEP),
+        nested_anchor_writes: cx.is_known(SIG_NESTED_ANCHOR),
     };
     let mut avoided = vec![];
     if av.i0_writes {
@@ -988,6 +1025,9 @@ pub fn run(cx: &mut Ctx) {
     }
     if av.folded_keep {
         avoided.push("a folded block scalar ending in two or more line breaks");
+    }
+    if av.nested_anchor_writes {
+        avoided.push("a write program on a document with an anchor inside an anchored collection");
     }
     if !avoided.is_empty() {
         cx.note(format!("open findings: `reread` does not generate {}; `open-finding-shapes` does", avoided.join("; ")));
